@@ -41,27 +41,42 @@ ANCHORS = [("deap/creator.py", []),
            ("deap/gp.py", ["PrimitiveTree.__deepcopy__", "PrimitiveTree.__init__", "Primitive", "Terminal",
                            "MetaEphemeral"])]
 LEVEL = "partial"
-RULE = ("structured enumeration: every base (list, array b/i/d, ndarray int/float/bool, set, dict, PrimitiveTree) x "
+RULE = ("structured enumeration: every base (list, array b/i/d, ndarray int/float/bool and float32/int8/uint8/int16/"
+        "complex64, set, dict, PrimitiveTree; fitness values incl. non power-of-two weights with values whose weighted "
+        "value is not reproduced by values->wvalues, and integers above 2**53; compared bit-exactly) x "
         "fitness invalid/valid x 1..3 objectives x attribute configurations (none, per-instance list/dict/set, "
         "strategy array, nested created class, class-level mutable, extra nested mutables with internal aliasing, "
         "ndarray/array attributes, second fitness) x content sizes 0,1,3; plus random attribute graphs; every case "
         "is cloned in chains of 1..3, pickled with protocols 0..5 here, and (fresh stream) in a new interpreter. "
         "Non-trivial = distinct case with at least one mutable attribute or non-empty content")
 EXHAUSTIVE = {"quick": False, "thorough": False}
-TIME_BUDGET = {"quick": 55, "thorough": 800}
+TIME_BUDGET = {"quick": 75, "thorough": 900}
+CASE_TIMEOUT = 240
+MIN_CASES = 1500
 TRUSTED = ["CPython copy.deepcopy / pickle / copyreg / functools.partial dispatch (which hook is called for which "
            "object and protocol) — modelled as the dispatcher in Core/Heap.lean, seen only by this correspondence",
            "numpy.ndarray.copy / array.array buffer copy produce an independent buffer (checked with "
            "numpy.shares_memory and by the mutation test)",
            "the operating system starts a fresh interpreter for the fresh-interpreter stream"]
 ASSUMPTIONS = ["object graphs are acyclic (an individual does not contain itself)",
+               "class-level attributes (non-type keyword arguments of creator.create, e.g. shared=[1,2]) are state of the "
+               "CLASS: original and clone share them by design (same class object); the statement's 'attributes' are "
+               "read as attributes of the individual (DESIGN section 6); after unpickling the re-created class carries "
+               "an equal copy (checked as class equivalence)",
+               "numpy individuals of dtype=object are outside the statement's premise as checked here: "
+               "_numpy_array.__deepcopy__ copies the buffer with numpy.ndarray.copy, which is shallow for object "
+               "arrays, so mutable ELEMENTS are shared between original and clone (candidate finding, reported; "
+               "exercised in the model-vs-implementation stream only, where the model predicts the sharing)",
                "per-instance attributes named in creator.create are still present on the object (not deleted); "
                "deleted ones are exercised in the model-vs-implementation stream only",
                "attributes hung on a Fitness object other than its declared state are outside the statement "
                "(DESIGN section 6); exercised in the model-vs-implementation stream only",
                "the dtype of an EMPTY numpy individual is not content (numpy.array([]) is float64 after unpickling)",
                "GP node objects (Primitive, Terminal, ephemeral instances) are immutable and may be shared"]
-EXPLANATION = ("partial: the heap model proves the independence argument for the hooks as coded (clone/pickle "
+EXPLANATION = ("Pickle PROTOCOLS, the fresh interpreter, and the picklability of undecorated toolbox aliases are "
+               "correspondence/oracle-only (the model has one reduce-tuple semantics and functools.partial as data; "
+               "class re-creation is modelled by Heap.metaCreate, theorems meta_create_* / class_roundtrip).  "
+               "partial: the heap model proves the independence argument for the hooks as coded (clone/pickle "
                "equal and disjoint, write independence, chains); that CPython dispatches to these hooks for every "
                "base type and pickle protocol, also in a fresh interpreter, is runtime behaviour checked here.")
 
@@ -168,7 +183,10 @@ def build_classes(d, uid, variant=False):
         return getattr(creator, full)
     cl = {}
     fb = base.ConstrainedFitness if d.get("cfit") else base.Fitness
-    cl["Fit"] = mk("Fit", fb, weights=tuple((-1.0 if variant else 1.0) * float(w) for w in d["weights"]))
+    if d.get("intw"):          # integer weights (products stay Python ints: exact beyond 2**53)
+        cl["Fit"] = mk("Fit", fb, weights=tuple((-1 if variant else 1) * int(w) for w in d["weights"]))
+    else:
+        cl["Fit"] = mk("Fit", fb, weights=tuple((-1.0 if variant else 1.0) * float(w) for w in d["weights"]))
     kw = {}
     for name, t in sorted(d.get("inst", {}).items()):
         if t in ("list", "dict", "set"):
@@ -191,6 +209,10 @@ def build_classes(d, uid, variant=False):
             kw[name] = Plain
         else:
             raise ValueError(t)
+    for kind in d.get("aux", []):      # created classes whose INSTANCES are nested inside the individual
+        pyb, extra = {"nd": (numpy.ndarray, {}), "arr": (array.array, {"typecode": "d"}), "set": (set, {}),
+                      "tree": (gp.PrimitiveTree, {}), "dict": (dict, {}), "list": (list, {})}[kind]
+        cl["Aux_" + kind] = mk("Aux" + kind, pyb, fitness=cl["Fit"], tag=list, **extra)
     env = {}
     for name, v in sorted(d.get("cattrs", {}).items()):
         kw[name] = build_value(v, env, cl)
@@ -211,6 +233,7 @@ def build_classes(d, uid, variant=False):
     else:
         raise ValueError(b)
     cl["Ind"] = mk("Ind", pybase, **kw)
+    cl["__desc__"] = d
     return cl
 
 
@@ -246,6 +269,31 @@ def build_value(v, env, cl):
         o = cl["Nested"](build_value(x, env, cl) for x in v[1])
         o.inner.update(build_value(v[2], env, cl))
         return o
+    if tag == "FS":
+        return frozenset(build_value(x, env, cl) for x in v[1:])
+    if tag == "C":                              # ["C", kind, content, with_fitness, tag items]: nested created instance
+        A = cl["Aux_" + v[1]]
+        if v[1] == "tree":
+            o = A(build_tree_nodes(v[2]))
+        elif v[1] == "dict":
+            o = A()
+            o.update(build_value(["D"] + v[2], env, cl))
+        elif v[1] == "arr":
+            o = A([float(x) for x in v[2]])
+        elif v[1] == "nd":
+            o = A(v[2])
+        else:
+            o = A(build_value(x, env, cl) for x in v[2])
+        if v[3] and "fitness" in vars(o):
+            o.fitness.values = tuple(1.0 + i for i in range(len(cl["Fit"].weights)))
+        o.tag.extend(build_value(x, env, cl) for x in v[4])
+        return o
+    if tag == "SELF":                           # part.best = creator.Particle(part): same class, same content
+        dd = cl["__desc__"]
+        o = cl["Ind"]() if dd["base"] == "dict" else cl["Ind"](content_of(dd, cl, env))
+        if v[1] and "fitness" in vars(o):
+            o.fitness.values = tuple(2.0 + i for i in range(len(cl["Fit"].weights)))
+        return o
     if tag == "P":
         o = Plain()
         o.payload.extend(build_value(x, env, cl) for x in v[1:])
@@ -253,8 +301,15 @@ def build_value(v, env, cl):
     raise ValueError(tag)
 
 
-def content_of(d):
+def content_of(d, cl=None, env=None):
     b, c = d["base"], d["content"]
+    if b == "ndarray:object":                 # object dtype: the elements are arbitrary Python objects
+        arr = numpy.empty(len(c), dtype=object)
+        for i, v in enumerate(c):
+            arr[i] = build_value(v, {} if env is None else env, cl)
+        return arr
+    if b in ("list", "set") and any(isinstance(v, list) for v in c):     # non-atomic top-level content
+        return [build_value(v, {} if env is None else env, cl) for v in c]
     if b == "tree":
         return build_tree_nodes(c)
     if b == "dict":
@@ -265,6 +320,10 @@ def content_of(d):
             return [float(x) for x in c] if not (c and isinstance(c[0], list)) else [[float(y) for y in r] for r in c]
         if kind == "bool":
             return [bool(x) for x in c]
+        if kind == "complex64":
+            return numpy.array([complex(x, -0.5 * x) for x in c], dtype=numpy.complex64)
+        if kind in NP_DTYPES:   # non-default element types: the constructor keeps the dtype of numpy scalars
+            return numpy.array(c, dtype=kind)
         return c
     if b == "array:d":
         return [float(x) for x in c]
@@ -279,7 +338,7 @@ def build_instance(d, cl, env=None):
         for k, v in d["content"]:
             x[build_value(k, env, cl)] = build_value(v, env, cl)
     else:
-        x = Ind(content_of(d))
+        x = Ind(content_of(d, cl, env))
     for name, v in sorted(d.get("fill", {}).items()):
         tgt = getattr(x, name)
         val = build_value(v, env, cl)
@@ -295,8 +354,8 @@ def build_instance(d, cl, env=None):
         f = getattr(x, name)
         if vals is not None:
             f.values = tuple(vals)
-        if d.get("cfit") and name == "fitness" and d.get("cv") is not None and vals is None:
-            f.constraint_violation = list(d["cv"])
+        if d.get("cfit") and name == "fitness" and d.get("cv") is not None:
+            f.constraint_violation = list(d["cv"])      # also on a VALID fitness: the normal state after evaluation
     for name, v in sorted(d.get("extra", {}).items()):
         setattr(x, name, build_value(v, env, cl))
     for name, v in sorted(d.get("fitextra", {}).items()):
@@ -366,7 +425,10 @@ def canon(o, depth=0):
                                        sorted(set(getattr(t, "__slots__", ())) | set(getattr(o, "__dict__", {})))]
     head = ["inst", class_sig(t)] if is_created(t) else ["obj", t.__name__]
     if isinstance(o, numpy.ndarray):
-        body = ["nd", nd_header(o), [atom_key(e) for e in o.ravel().tolist()]]
+        if o.dtype == object:
+            body = ["nd", nd_header(o), [canon(e, depth + 1) for e in o.ravel()]]
+        else:
+            body = ["nd", nd_header(o), [atom_key(e) for e in o.ravel().tolist()]]
     elif isinstance(o, array.array):
         body = ["array", o.typecode, [atom_key(e) for e in o]]
     elif isinstance(o, (list, tuple)):
@@ -412,6 +474,8 @@ def children(o):
     elif isinstance(o, dict):
         for k, v in o.items():
             out += [k, v]
+    elif isinstance(o, numpy.ndarray) and o.dtype == object:
+        out += list(o.ravel())
     if hasattr(o, "__dict__"):
         out += [v for _, v in sorted(vars(o).items())]
     for s in getattr(type(o), "__slots__", ()):
@@ -596,7 +660,10 @@ class Modeler(object):
         elif isinstance(o, NODE_TYPES):
             items = [self.atom(["slot", s, repr(getattr(o, s, "<unset>"))]) for s in sorted(t.__slots__)]
         elif isinstance(o, numpy.ndarray):
-            items = [self.atom(nd_header(o))] + [self.atom(atom_key(e)) for e in o.ravel().tolist()]
+            if o.dtype == object:
+                items = [self.atom(nd_header(o))] + [ch(e) for e in o.ravel()]
+            else:
+                items = [self.atom(nd_header(o))] + [self.atom(atom_key(e)) for e in o.ravel().tolist()]
         elif isinstance(o, array.array):
             # a created array class carries its typecode on the class; a plain array.array in the value
             items = ([] if is_created(t) else [self.atom(["typecode", o.typecode])]) + \
@@ -728,6 +795,14 @@ def tag_of(d):
         cfg.append("extra")
     if d.get("del") or d.get("fitextra"):
         cfg.append("off-premise")
+    if d.get("hard"):
+        cfg.append("hardfit:" + d["hard"])
+    if d.get("aux") or "SELF" in json.dumps(d.get("extra", {})):
+        cfg.append("nested-instances")
+    if d["base"] in ("list", "set") and any(isinstance(v, list) for v in d["content"]):
+        cfg.append("nonatomic-content")
+    if d.get("cfit") and d.get("cv") is not None:
+        cfg.append("cv")
     fit = d.get("fits", {}).get("fitness", "nofit") if "fitness" in d.get("inst", {}) else "nofit"
     return "%s/%s/nobj=%d/%s" % (d["base"], "invalid" if fit is None else "nofit" if fit == "nofit" else "valid",
                                  len(d["weights"]), ",".join(cfg) or "bare")
@@ -752,12 +827,18 @@ def check_copy(kind, x, c, canon0, sig0, require_same_class):
     sh = shared_mutables(x, c)
     if sh:
         return "%s: shares mutable state with the original: %s" % (kind, sh)
+    fx, fc = getattr(x, "fitness", None), getattr(c, "fitness", None)
+    if isinstance(fx, base.Fitness):
+        if not isinstance(fc, base.Fitness) or tuple(map(repr, fc.wvalues)) != tuple(map(repr, fx.wvalues)):
+            return "%s: weighted fitness values are not bit-identical: %r vs %r" % (kind, fx.wvalues, getattr(fc, "wvalues", None))
+        if not (fc == fx) or (fc != fx):
+            return "%s: copy.fitness == original.fitness is False" % kind
     return None
 
 
 def eval_obj(d):
     uid = next_uid()
-    premise = not (d.get("del") or d.get("fitextra"))
+    premise = not (d.get("del") or d.get("fitextra") or d["base"] == "ndarray:object")
     try:
         with warnings.catch_warnings():
             warnings.simplefilter("ignore")
@@ -797,15 +878,26 @@ def _eval_obj(d, uid, premise):
     sh = shared_mutables(vars(x1) if hasattr(x1, "__dict__") else {}, vars(x2) if hasattr(x2, "__dict__") else {})
     if sh:
         fail("create: two instances share mutable attribute state: %s" % sh)
-    # (state set by a base class's own __init__ — ConstrainedFitness.constraint_violation = None, Plain.payload —
-    #  is not part of init_type's dict_inst instantiation, which is what the model's `create` covers)
+    # (ConstrainedFitness.__init__'s constraint_violation = None is modelled (Heap.baseInitAttrs); state set by other
+    #  base classes' own __init__ — Plain.payload — is not part of init_type and not of the model's `create`)
     if model_ready(d) and d["base"] != "tree" and all(not isinstance(c, list) for c in d["content"]) \
-            and not d.get("cfit") and "plainobj" not in d.get("inst", {}).values():
+            and "plainobj" not in d.get("inst", {}).values() and not d.get("aux") and d["base"] != "ndarray:object":
         m = Modeler()
         c0 = m.cls_id(Ind)
         _, _, items, _ = m.parts(x1)
         lines.append("C16 create %s %d %s 2" % (m.ct_text(), c0, ",".join("a%d" % i[1] for i in items) or "-"))
         expect.append(m.graph_dump([x1, x2]))
+        # create, then clone the brand-new instance (the two must compose, also for ConstrainedFitness classes)
+        m2 = Modeler()
+        c0 = m2.cls_id(Ind)
+        x3 = build_instance(dd, cl)
+        m2.add(x3)
+        lines.append("C16 createclone %s %d %s" % (m2.ct_text(), c0, ",".join("a%d" % i[1] for i in items) or "-"))
+        try:
+            expect.append(m2.graph_dump([tb.clone(x3)]))
+        except Exception as e:  # noqa
+            expect.append("raised %s" % type(e).__name__)
+            fail("clone of a newly created instance raised %s: %s" % (type(e).__name__, e))
 
     # ---- 2. the individual, its clone chain and its pickles
     x = build_instance(d, cl)
@@ -918,7 +1010,7 @@ def eval_fresh(d):
         env = dict(os.environ, DEAP_REPO=REPO, PYTHONHASHSEED=str(d.get("hashseed", 0)))
         p = subprocess.run([sys.executable, os.path.abspath(__file__), "--child"],
                            input=json.dumps({"recreate": d.get("recreate", True), "entries": entries}),
-                           stdout=subprocess.PIPE, stderr=subprocess.PIPE, text=True, timeout=600, env=env)
+                           stdout=subprocess.PIPE, stderr=subprocess.PIPE, text=True, timeout=180, env=env)
         if p.returncode != 0:
             raise Infra("fresh-interpreter child failed: %s" % p.stderr[-800:])
         answers = json.loads(p.stdout.strip().split("\n")[-1])
@@ -936,7 +1028,7 @@ def eval_fresh(d):
             canon0, sig0, csig = canon(x), alias_sig(x), class_sig(type(x))
             for pr in sorted(ans, key=int):
                 a = ans[pr]
-                premise = not (sub.get("del") or sub.get("fitextra"))
+                premise = not (sub.get("del") or sub.get("fitextra") or sub["base"] == "ndarray:object")
                 msg = None
                 if "error" in a:
                     msg = "fresh interpreter, protocol %s: %s" % (pr, a["error"])
@@ -1125,7 +1217,8 @@ def evaluate(d):
 # generation
 # ----------------------------------------------------------------------------------------------------
 
-BASES = ["list", "array:b", "array:i", "array:d", "ndarray:int", "ndarray:float", "ndarray:bool", "set", "dict", "tree"]
+NP_DTYPES = ["float32", "int8", "uint8", "int16", "complex64"]
+BASES = ["ndarray:" + t for t in NP_DTYPES] + ["list", "array:b", "array:i", "array:d", "ndarray:int", "ndarray:float", "ndarray:bool", "set", "dict", "tree"]
 
 
 def content_for(b, size, rng):
@@ -1140,6 +1233,12 @@ def content_for(b, size, rng):
         return rng.sample([0, 1, 2, 3, 5, 8, -1, "a", "b", 2.5], size)
     if b == "ndarray:bool":
         return [rng.random() < 0.5 for _ in range(size)]
+    if b == "ndarray:float32":
+        return [rng.choice([0.1, 1.5, -2.25, 3.3, 1e-3]) for _ in range(size)]
+    if b in ("ndarray:int8", "ndarray:complex64"):
+        return [rng.randint(-100, 100) for _ in range(size)]
+    if b == "ndarray:uint8":
+        return [rng.randint(0, 255) for _ in range(size)]
     if b in ("array:d", "ndarray:float"):
         return [rng.choice([0.0, 1.0, -2.5, 0.125, 3.0]) for _ in range(size)]
     if b == "array:b":
@@ -1147,6 +1246,25 @@ def content_for(b, size, rng):
     if b == "list":
         return [rng.choice([0, 1, 2, -7, 1.5, "g"]) for _ in range(size)]
     return [rng.randint(-1000, 1000) for _ in range(size)]
+
+
+HARD_W = [3.0, 7.0, 49.0, 0.3, 0.7, 1e-3, -3.0, -7.0, -0.3, 1.1, 10.0, -49.0]
+WITNESS = (49.0, 0.020408163265306124)        # v*w = 1.0 but (v*w)/w*w = 0.9999999999999999
+
+
+def nonidempotent(w, v):
+    """(v*w) is not a fixed point of x -> x/w*w: re-deriving wvalues from values changes bits."""
+    y = v * w
+    return y / w * w != y
+
+
+def hard_pair(rng):
+    for _ in range(4000):
+        w = rng.choice(HARD_W)
+        v = rng.choice([rng.random(), rng.uniform(-100, 100), rng.randint(1, 1000) / rng.choice([3.0, 7.0, 49.0, 10.0])])
+        if nonidempotent(w, v):
+            return w, v
+    return WITNESS
 
 
 def rand_fit(n, rng):
@@ -1186,16 +1304,53 @@ CONFIGS = [
 ]
 
 
-def with_fit(cfg, nobj, valid, rng, cfit=False, cv=None):
+TREE_TOK = ["add", "ARG0", ["E", "c16_eph_int", 2]]
+NESTED_CONFIGS = [
+    # examples/pso/basic_numpy.py: part.best = creator.Particle(part); part.speed = array
+    {"inst": {"fitness": "fit"}, "aux": ["nd"],
+     "extra": {"best": ["SELF", True], "speed": ["C", "nd", [0.5, 1.5], False, [["L", 1]]]}},
+    {"inst": {"fitness": "fit", "log": "list"}, "aux": ["tree", "arr", "set"], "fill": {"log": ["L", ["L", 1]]},
+     "extra": {"t": ["C", "tree", TREE_TOK, True, [1]], "a": ["C", "arr", [1.0, 2.5], True, []],
+               "s": ["C", "set", [1, 2, "x"], False, [["L", 2]]]}},
+    {"inst": {"fitness": "fit"}, "aux": ["dict", "list", "nd"],
+     "extra": {"dd": ["C", "dict", [["k", ["L", 1]]], True, []],
+               "l": ["C", "list", [["L", 1], ["C", "nd", [1, 2], True, []]], True, [3]],
+               "both": ["L", ["SELF", True], ["SELF", False]]}},
+]
+
+
+def nested_content(b, rng):
+    """Non-atomic top-level content: nested lists (Individual([[1,2],[3]])), trees inside a list individual (ADF
+    individuals), dicts; frozen items for set bases."""
+    if b == "set":
+        return [["T", 1, 2], ["FS", 3, 4], 5, ["T", "a", ["T", 1]]][:rng.randint(1, 4)]
+    pool = [["L", 1, 2], ["L", 3], ["L"], ["D", ["a", ["L", 1]]], ["C", "tree", TREE_TOK, True, []],
+            ["C", "tree", ["ARG1"], False, [1]], ["C", "list", [1, ["L", 2]], True, []], 7, ["S", 1, 2]]
+    return [rng.choice(pool) for _ in range(rng.randint(1, 4))]
+
+
+def with_fit(cfg, nobj, valid, rng, cfit=False, cv=None, hard=None):
+    """hard: None | "rand" (weights/values whose weighted value is not a fixed point of /w*w) | "witness" |
+    "bigint" (integer weights, objective above 2**53)."""
     d = {"weights": [rng.choice([1.0, -1.0, 2.0, -0.5]) for _ in range(nobj)], "cfit": cfit}
+    hv = None
+    if hard == "rand":
+        pairs = [hard_pair(rng) for _ in range(nobj)]
+        d["weights"], hv = [p[0] for p in pairs], [p[1] for p in pairs]
+    elif hard == "witness":
+        d["weights"], hv = [WITNESS[0]] + [-7.0] * (nobj - 1), [WITNESS[1]] + [1.0 / 3.0] * (nobj - 1)
+    elif hard == "bigint":
+        d["weights"], hv, d["intw"] = [1] + [-1] * (nobj - 1), [2 ** 53 + 1] + [3 ** 40] * (nobj - 1), True
+    if hard:
+        d["hard"] = hard
     fits = {}
     for name, t in cfg.get("inst", {}).items():
         if t == "fit":
-            fits[name] = rand_fit(nobj, rng) if valid else None
+            fits[name] = (hv if hv is not None else rand_fit(nobj, rng)) if valid else None
         elif t == "fit2":
             fits[name] = [1.0, 2.0] if rng.random() < 0.5 else None
     d["fits"] = fits
-    if cfit and not valid:
+    if cfit:
         d["cv"] = cv
     if any(isinstance(v, list) and v and v[0] == "F" for v in cfg.get("extra", {}).values()):
         cfg = dict(cfg, extra=dict((k, (["F", rand_fit(nobj, rng)] if isinstance(v, list) and v and v[0] == "F" else v))
@@ -1237,8 +1392,8 @@ def random_config(rng):
     return dict((k, v) for k, v in cfg.items() if v)
 
 
-def obj_case(b, size, cfg, nobj, valid, rng, chain=1, cfit=False, cv=None):
-    d = with_fit(cfg, nobj, valid, rng, cfit, cv)
+def obj_case(b, size, cfg, nobj, valid, rng, chain=1, cfit=False, cv=None, hard=None):
+    d = with_fit(cfg, nobj, valid, rng, cfit, cv, hard)
     d.update({"k": "obj", "base": b, "content": content_for(b, size, rng), "chain": chain})
     return d
 
@@ -1253,7 +1408,33 @@ def structured(rng, thorough):
                         continue
                     for size in ((0, 1, 3) if thorough else (rng.choice([0, 1, 3]),)):
                         out.append(obj_case(b, size, cfg, nobj, valid, rng, chain=rng.choice([1, 1, 2, 3])))
-    # constrained fitness
+    # fitness values whose weighted value is NOT reproduced by values -> wvalues (non power-of-two weights, big ints)
+    for b in BASES:
+        for hard in ("witness", "bigint", "rand", "rand"):
+            out.append(obj_case(b, 2, rng.choice(CONFIGS[1:6]), rng.randint(1, 3), True, rng,
+                                chain=rng.choice([1, 2]), hard=hard))
+    # created instances nested inside the individual; non-atomic top-level content
+    for b in BASES:
+        for cfg in NESTED_CONFIGS:
+            out.append(obj_case(b, rng.choice([1, 3]), cfg, rng.randint(1, 3), rng.random() < 0.7, rng,
+                                chain=rng.choice([1, 2])))
+    for b in ("list", "set"):
+        for cfg in (CONFIGS[1], CONFIGS[2], CONFIGS[7], NESTED_CONFIGS[1]):
+            for rep in range(2):
+                d = obj_case(b, 0, cfg, rng.randint(1, 2), True, rng, chain=rng.choice([1, 2]))
+                d["content"] = nested_content(b, rng)
+                d["aux"] = sorted(set(d.get("aux", []) + ["tree", "list"]))
+                out.append(d)
+    # object-dtype numpy individuals (off-premise: numpy.ndarray.copy is shallow for them; model vs implementation only)
+    for cfg in (CONFIGS[1], CONFIGS[3]):
+        d = obj_case("list", 0, cfg, 1, True, rng)
+        d["base"] = "ndarray:object"
+        d["content"] = [["D", ["gene", 1]], ["D", ["gene", ["L", 2, 3]]], ["D"]]
+        out.append(d)
+    # constrained fitness: also a VALID one that still carries its record
+    for b in BASES:
+        out.append(obj_case(b, 2, CONFIGS[1], 2, True, rng, cfit=True, cv=[False, False]))
+        out.append(obj_case(b, 1, CONFIGS[2], 1, True, rng, cfit=True, cv=[True]))
     for b in BASES:
         for cv in (None, [True, False], []):
             out.append(obj_case(b, 2, CONFIGS[1], 2, False, rng, cfit=True, cv=cv))
@@ -1320,7 +1501,15 @@ def generate(tier, rng, mult):
         cfit = rng.random() < 0.15
         d = obj_case(b, rng.choice([0, 1, 2, 3, 5]), cfg, rng.randint(1, 3), valid, rng,
                      chain=rng.choice([1, 1, 2, 3, 4]), cfit=cfit,
+                     hard=("rand" if (valid and not cfit and rng.random() < 0.3) else None),
                      cv=rng.choice([None, [True], [False, True]]) if cfit else None)
+        if b in ("list", "set") and rng.random() < 0.35:
+            d["content"] = nested_content(b, rng)
+            d["aux"] = sorted(set(d.get("aux", []) + ["tree", "list"]))
+        elif rng.random() < 0.15 and "@" not in json.dumps(d.get("extra", {})):
+            nc = rng.choice(NESTED_CONFIGS)
+            d["aux"] = sorted(set(d.get("aux", []) + nc["aux"]))
+            d["extra"] = dict(d.get("extra", {}), **nc["extra"])
         yield d
         pend.append(d)
         if len(pend) == 50 and (thorough or i < 600):
